@@ -32,6 +32,8 @@ def _reexec():
     if need and os.environ.get("_VERIF_REEXEC") != "1":
         env = dict(os.environ)
         env.update(want)
+        if env.get("VERIF_DEV_SRC"):
+            env["PYTHONPATH"] = env["VERIF_DEV_SRC"] + (":" + env["PYTHONPATH"] if env.get("PYTHONPATH") else "")
         env["_VERIF_REEXEC"] = "1"
         os.execve(VENV_PY, [VENV_PY, os.path.abspath(__file__)] + sys.argv[1:], env)
 
@@ -51,7 +53,10 @@ def main():
     import genjax
 
     src = os.path.realpath(os.path.dirname(genjax.__file__))
-    if not src.startswith("/repo/"):
+    dev = os.environ.get("VERIF_DEV_SRC")  # development only: evaluate a seeded change in a scratch worktree
+    if dev and src.startswith(os.path.realpath(dev)):
+        print(f"[dev] genjax from {src} (VERIF_DEV_SRC); registered commands never set this")
+    elif not src.startswith("/repo/"):
         print(f"HARNESS-ERROR: genjax imported from {src}, expected /repo/src")
         return 2
     mod = importlib.import_module(f"checks.{a.prop.lower()}")
